@@ -17,18 +17,18 @@ import numpy as np
 
 from .tlc import run_tlc, wrapper
 
-VARS = ["alpha", "beta", "mass"]  # alpha: scalar field, beta: rank-1 tensor field, mass: one number per iteration
+VARS = ["alpha", "betaup3", "mass"]  # alpha: scalar field, betaup3: rank-1 tensor field saved under the name of an AurelCore tensor, mass: one number per iteration
 DICTS = [
     # it column, hasT, cols: 1 = array, 0 = None entry; [] = None column
-    {"it": [0, 10, 20], "hasT": True, "cols": {"alpha": [1, 1, 1], "beta": [1, 1, 1]}},
-    {"it": [20, 0, 10], "hasT": True, "cols": {"alpha": [1, 0, 1], "beta": []}},
-    {"it": [], "hasT": False, "cols": {"alpha": [1, 1], "beta": [1, 1]}},
-    {"it": [10, 30], "hasT": False, "cols": {"alpha": [1, 1], "beta": [0, 1]}},
+    {"it": [0, 10, 20], "hasT": True, "cols": {"alpha": [1, 1, 1], "betaup3": [1, 1, 1]}},
+    {"it": [20, 0, 10], "hasT": True, "cols": {"alpha": [1, 0, 1], "betaup3": []}},
+    {"it": [], "hasT": False, "cols": {"alpha": [1, 1], "betaup3": [1, 1]}},
+    {"it": [10, 30], "hasT": False, "cols": {"alpha": [1, 1], "betaup3": [0, 1]}},
 ]
 # second family: a dictionary as read_data / over_time return it (numpy columns, numpy 'it'), with a scalar-valued variable
 DICTS_B = [
-    {"it": [0, 10, 20], "hasT": True, "cols": {"alpha": [1, 1, 1], "beta": [1, 1, 1]}},
-    {"it": [30, 10], "hasT": True, "numpy": True, "cols": {"alpha": [1, 1], "beta": [], "mass": [1, 1]}},
+    {"it": [0, 10, 20], "hasT": True, "cols": {"alpha": [1, 1, 1], "betaup3": [1, 1, 1]}},
+    {"it": [30, 10], "hasT": True, "numpy": True, "cols": {"alpha": [1, 1], "betaup3": [], "mass": [1, 1]}},
 ]
 ITSELS_B = [[10], [30, 10], [0, 10, 20]]
 VARSELS_B = [[], ["mass"], ["alpha"]]
@@ -39,13 +39,14 @@ QUERIES_B = [
     {"it": [10, 20], "vars": ["t", "mass"], "rl": 0},
 ]
 ITSELS = [[0], [20], [0, 10, 20], [20, 0], [10, 10], [10, 30], [5, 10]]
-VARSELS = [[], ["alpha"], ["beta"]]
+VARSELS = [[], ["alpha"], ["betaup3"]]
 LEVELS = [0, 1]
 QUERIES = [
     {"it": [0, 10, 20, 30], "vars": [], "rl": 0},
     {"it": [20, 5, 0], "vars": ["alpha", "gamma"], "rl": 0},
     {"it": [10, 30], "vars": [], "rl": 1},
     {"it": [0, 10], "vars": ["alpha", "t"], "rl": 0},     # the time column named explicitly
+    {"it": [20, 10], "vars": ["betaup3"], "rl": 0},       # a variable saved under the name of an AurelCore tensor, read back by that name
 ]
 
 
